@@ -35,6 +35,7 @@ SETTINGS = {"possibly_undefined_name": True}
 # ----------------------------------------------------------------- enumeration
 
 ATOMS = [("assign", 0), ("use", 0), ("call",), ("return",), ("raise",)]
+CLOSURE_ATOMS = [("assign", 0), ("calli",), ("call",), ("return",)]
 LOOP_ATOMS = ATOMS + [("break",), ("continue",)]
 
 
@@ -71,18 +72,34 @@ def compounds():
         yield ("try", a, [b], None, c)
 
 
+def closure_functions():
+    """[optional assignment]; one compound over {v=, inner(), call(), return}; inner() - the nested
+    function `inner` reads v when it is called."""
+    B = list(blocks(CLOSURE_ATOMS, 2))
+    for b in B:
+        for comp in (("if", b, None), ("while", b, None), ("for", b, None), ("with", "S", b), ("try", b, [[("pass",)]], None, None)):
+            if not any(s[0] in ("assign", "calli") for s in b):
+                continue
+            for prefix in ([], [("assign", 0)], [("calli",)]):
+                yield cfg.renumber(prefix + [comp, ("calli",)])
+    for a, b in itertools.product(B, B):
+        if any(s[0] == "assign" for s in a + b) and any(s[0] == "calli" for s in a + b):
+            yield cfg.renumber([("if", a, b), ("calli",)])
+
+
 def exhaustive_functions():
     for c in compounds():
         for prefix in ([], [("assign", 0)]):
             yield cfg.renumber(prefix + [c, ("use", 0)])
+    yield from closure_functions()
 
 
 # ----------------------------------------------------------------- Hypothesis skeletons
 
 
 def skeleton_strategy(width=3, depth=3):
-    atom = st.sampled_from(ATOMS + [("pass",)])
-    loop_atom = st.sampled_from(LOOP_ATOMS)
+    atom = st.sampled_from(ATOMS + [("pass",), ("calli",)])
+    loop_atom = st.sampled_from(LOOP_ATOMS + [("calli",)])
 
     def block(d, in_loop):
         return st.lists(stmt(d, in_loop), min_size=1, max_size=width).map(trim_dead)
